@@ -21,7 +21,7 @@ var Includes = map[string][]string{
 	"C07": {"C28.raw-reader"},
 	"C16": {"C23.begin-resets"},
 	"C17": {"C07.waitgroup"},
-	"C20": {"C06.references", "C06.retained-bytes", "C05.marker-ids", "C05.pairing", "C16.reset", "C16.fresh-per-call", "C06.unstack-self", "C04.wrapper-shape"},
+	"C20": {"C06.references", "C06.retained-bytes", "C05.marker-ids", "C05.pairing", "C16.reset", "C16.fresh-per-call", "C06.unstack-self", "C06.siblings", "C04.wrapper-shape"},
 	"C23": {"C02.encoder-state", "C25.hex-noprefix", "C29.no-dropped-error"},
 	"C24": {"C25.chain"},
 	"C25": {"C24.specials", "C24.range", "C24.separators", "C24.base0", "C23.separator"},
